@@ -28,16 +28,41 @@ def pinned_probes(prop):
     return out
 
 
+def degenerate(case):
+    """stress stratum of the universe: objectives with exact zeros / plateaus / ties, or optima sitting on a zero bound -
+    where 0/0, inf*0 and tie handling of the update rules are exercised"""
+    spec = case["spec"]
+    fams = {o["fam"] for o in spec["obj"]}
+    if fams & {"hinge", "plateau"}:
+        return True
+    for v in spec["vars"]:
+        if v[0] == "c" and 0.0 in (v[1], v[2]):
+            return True
+        if v[0] in ("cm", "mo") and (0.0 in v[1] or 0.0 in v[2]):
+            return True
+    return False
+
+
 def choose_items(prop, tier, seed, n, select=None, mode_fraction=0.0, delay=False, only_strict_modes=False,
-                 oversample=4, prior_fraction=0.0, mode_cap=2000):
+                 oversample=4, prior_fraction=0.0, mode_cap=2000, stress_fraction=0.0, stress_strict=False):
     """-> list of work items (universe indices, or dicts for thread/process variants)"""
     rng = random.Random(f"{universe.UNIVERSE_VERSION}/items/{prop}/{tier}/{seed}")
     idx = universe.sample_indices(seed, min(universe.UNIVERSE_SIZE, n * (oversample if select else 1)), tag=prop + tier)
     items = []
+    n_stress = int(n * stress_fraction)
+    if n_stress:
+        # part of the sample is drawn from the stress stratum (still audited universe indices, still chosen by the seed)
+        for i in universe.sample_indices(seed, min(universe.UNIVERSE_SIZE, n_stress * 12), tag=prop + tier + "stress"):
+            if len(items) >= n_stress:
+                break
+            c = universe.case(i)
+            if degenerate(c) and (not stress_strict or tasks.is_strict_class(c["spec"])) and (select is None or select(c)):
+                items.append(i)
+    taken = set(items)
     for i in idx:
         if len(items) >= n:
             break
-        if select is not None and not select(universe.case(i)):
+        if i in taken or (select is not None and not select(universe.case(i))):
             continue
         items.append(i)
     out = []
@@ -70,6 +95,8 @@ def item_label(item):
         return f"u{item}"
     if "e" in item:
         return f"e{item['e']}/{item.get('mode', 'serial')}"
+    if "b" in item:
+        return f"b{item['b']}"
     if "i" in item:
         return f"u{item['i']}/{item.get('mode', 'serial')}/{item.get('workers')}" + (f"/prior{item['prior']}" if item.get("prior") else "")
     return json.dumps(item, sort_keys=True)[:80]
